@@ -4,6 +4,7 @@
    those it is carried by the correspondence and the Spec oracle); what is proved for all charts,
    configurations, events and datamodel states are the invariants below. *)
 From V Require Import Base NameMatch Chart Exec Large LargeLemmas Interp LargeCache LargeCacheLemmas Spec ExitSetLemmas.
+From V Require Import Legal WfCore SelectConform SelectConformLemmas SelectConformOrder SelectConformRoot SelectConformFlatten.
 
 (* the transition set selected in one microstep is conflict-free: no two selected transitions have
    overlapping exit sets (Appendix D: removeConflictingTransitions) *)
@@ -98,3 +99,87 @@ Theorem exit_set_agrees_history_refuted :
     exists s, In s (Large.exit_states_of lg_fixed c cfg (tr c ti)) /\ ~ In s (Spec.compute_exit_set c cfg h [tr c ti]).
 Proof. exact ExitSetLemmas.exit_set_agrees_history_refuted. Qed.
 Print Assumptions exit_set_agrees_history_refuted.
+
+
+(* ---- transition selection is the one Appendix D prescribes, outside the recorded deviations ----
+   For every document of the history-free core (wf_coreb) whose <scxml> has a child state and whose
+   <parallel>s all have a child, every legal configuration (ascending), every event (or none) and every
+   execution state such that
+     (H1) no two transitions that are enabled (event matches, condition true) have sources in
+          ancestor-or-equal relation (otherwise: the recorded deviations, Spec.diag flags 1 and 2),
+     (H2) no condition of a transition of an active state fails to evaluate,
+     (H3) the event descriptors of those transitions are grammar-conformant and the event name has no white
+          space (the hypotheses of C12's name_match_correct),
+   SELECT_TRANSITIONS of LargeMicroStep::step returns exactly the list that Appendix D's selectTransitions /
+   selectEventlessTransitions (with removeConflictingTransitions) returns -- the same transitions in the
+   same order -- and the same execution state (the one it started from). *)
+Theorem selection_conforms : forall late t0 cfg ev x h,
+  let c := flatten late t0 in
+  wf_coreb c = true -> fs_type (st c 0) = FCompound -> par_nonemptyb c = true ->
+  legal_configb c cfg = true -> ascb cfg = true ->
+  unrelated_enabledb c cfg ev x = true -> conds_pureb c cfg x = true -> descs_okb c cfg ev = true ->
+  select_loop lg_fixed c cfg ev (cfg_postfix c cfg) None [] x = Spec.select_transitions c cfg h ev x.
+Proof. exact selection_conforms_flatten_lemma. Qed.
+Print Assumptions selection_conforms.
+
+(* Appendix D's configuration does not contain the <scxml> element, the engine's does (index 0) *)
+Theorem selection_conforms_spec_cfg : forall late t0 cfg' ev x h,
+  let c := flatten late t0 in
+  let cfg := 0 :: cfg' in
+  wf_coreb c = true -> fs_type (st c 0) = FCompound -> par_nonemptyb c = true -> root_unmentionedb c = true ->
+  legal_configb c cfg = true -> ascb cfg = true ->
+  unrelated_enabledb c cfg ev x = true -> conds_pureb c cfg x = true -> descs_okb c cfg ev = true ->
+  select_loop lg_fixed c cfg ev (cfg_postfix c cfg) None [] x = Spec.select_transitions c cfg' h ev x.
+Proof. exact selection_conforms_spec_cfg_lemma. Qed.
+Print Assumptions selection_conforms_spec_cfg.
+
+(* the same for any flat chart with these properties whose transitions are numbered in post-fix order of
+   their sources, given that its exit sets agree (for flatten: exit_set_agrees and transitions_in_postfix_order) *)
+Theorem selection_conforms_flat : forall c cfg ev x h,
+  wf_coreb c = true -> fs_type (st c 0) = FCompound -> trans_orderb c = true -> par_nonemptyb c = true ->
+  legal_configb c cfg = true -> ascb cfg = true ->
+  unrelated_enabledb c cfg ev x = true -> conds_pureb c cfg x = true -> descs_okb c cfg ev = true ->
+  (forall s ti, In s cfg -> In ti (fs_trans (st c s)) ->
+     forall z, In z (exit_states_of lg_fixed c cfg (tr c ti)) <-> In z (Spec.compute_exit_set c cfg h [tr c ti])) ->
+  select_loop lg_fixed c cfg ev (cfg_postfix c cfg) None [] x = Spec.select_transitions c cfg h ev x.
+Proof. exact selection_conforms_lemma. Qed.
+Print Assumptions selection_conforms_flat.
+
+(* LargeMicroStep::init numbers transitions in post-fix order of their source states: if the block of s1
+   lies before s2 in document order, every transition of s1 precedes every transition of s2 *)
+Theorem transitions_in_postfix_order : forall late t0, trans_orderb (flatten late t0) = true.
+Proof. exact trans_order_flatten. Qed.
+Print Assumptions transitions_in_postfix_order.
+
+(* the part before the conflict filter, with no premise on exit sets: Appendix D's list enabledTransitions
+   (walk up from every active atomic state, first match wins, duplicates dropped) is the list of the first
+   enabled transition of each candidate state in the engine's candidate order; it is ascending; computing
+   it leaves the execution state alone; the engine's selection is the greedy conflict filter over it *)
+Theorem enabled_transitions_conform : forall c cfg ev x,
+  wf_coreb c = true -> trans_orderb c = true -> par_nonemptyb c = true ->
+  legal_configb c cfg = true -> ascb cfg = true ->
+  unrelated_enabledb c cfg ev x = true -> conds_pureb c cfg x = true -> descs_okb c cfg ev = true ->
+  (exists cc',
+    fold_left (fun (acc : list nat * Spec.cond_cache * xstate) s =>
+                 let '(e, cc, x0) := acc in
+                 let '(o, cc', x') := Spec.first_in_chain c cfg ev (s :: Spec.ancs c s None) cc x0 in
+                 match o with Some ti => (Spec.addn ti e, cc', x') | None => (e, cc', x') end)
+              (filter (Spec.is_atomic_state c) cfg) ([], [], x) = (filter_map (en_of c cfg ev x) (cfg_postfix c cfg), cc', x)) /\
+  select_loop lg_fixed c cfg ev (cfg_postfix c cfg) None [] x =
+    (greedy (fun a b => conflicts lg_fixed c (tr c a) (tr c b)) (filter_map (en_of c cfg ev x) (cfg_postfix c cfg)) [], x) /\
+  ssorted (filter_map (en_of c cfg ev x) (cfg_postfix c cfg)) /\
+  (forall t, In t (filter_map (en_of c cfg ev x) (cfg_postfix c cfg)) <-> exists s, In s cfg /\ en_of c cfg ev x s = Some t).
+Proof. exact enabled_transitions_conform_lemma. Qed.
+Print Assumptions enabled_transitions_conform.
+
+(* a hypothesis that cannot be dropped: the transitions of a <parallel> without children are invisible to
+   Appendix D (it only walks up from atomic states); the engine takes them *)
+Theorem selection_childless_parallel_refuted :
+  exists late t0 cfg ev x h,
+    let c := flatten late t0 in
+    wf_coreb c = true /\ fs_type (st c 0) = FCompound /\ par_nonemptyb c = false /\
+    legal_configb c cfg = true /\ ascb cfg = true /\
+    unrelated_enabledb c cfg ev x = true /\ conds_pureb c cfg x = true /\ descs_okb c cfg ev = true /\
+    select_loop lg_fixed c cfg ev (cfg_postfix c cfg) None [] x <> Spec.select_transitions c cfg h ev x.
+Proof. exact SelectConformFlatten.selection_childless_parallel_refuted. Qed.
+Print Assumptions selection_childless_parallel_refuted.
